@@ -242,6 +242,21 @@ def run(tier: str) -> int:
             strings.append(gen_tag(r))
         else:
             strings.append(mutate(r, gen_tag(r)))
+    # characters outside the syntax alphabet: white space that is not TAG_WHITESPACE (vertical tab, NBSP, NEL, the
+    # separators \x1c-\x1f, Unicode spaces), a NUL, a non-ASCII letter — inside and right after unquoted tokens (seeded/C12-4)
+    EXOTIC = ["\x0b", "\xa0", "\x85", "\x1c", "\x1f", "\u2003", "\u2028", "\u3000", "\x00", "\u00e9", "\t", "\r", "\x0c"]
+    n_exo = int((1500 if tier == "quick" else 30000) * ch.budget_scale)
+    n_before_exo = len(strings)
+    for i in range(n_exo):
+        r = core.rng(PROP, "exotic", i)
+        base = list(r.choice(VALID) if i % 3 == 0 else (gen_tag(r) if i % 3 == 1 else "".join(r.choice(ALPHA) for _ in range(r.randint(2, 10)))))
+        for _ in range(r.randint(1, 2)):
+            c = r.choice(EXOTIC)
+            if base and r.random() < 0.4:
+                base[r.randrange(len(base))] = c
+            else:
+                base.insert(r.randint(0, len(base)), c)
+        strings.append("".join(base))
     stop = False
     for off in range(0, len(strings), 60000):
         chunk = strings[off:off + 60000]
@@ -250,7 +265,7 @@ def run(tier: str) -> int:
             if "error" in rep:
                 raise core.InfraError(f"driver: {rep['error']}")
             idx = off + k
-            stream = "fixed" if idx < n_fixed else ("exhaustive" if idx < n_fixed + n_ex else "random")
+            stream = "fixed" if idx < n_fixed else ("exhaustive" if idx < n_fixed + n_ex else ("random" if idx < n_before_exo else "exotic"))
             ch.count("parse_tag/" + stream, 1, 1)
             impl = impl_parse(s)
             if "err" in impl:
